@@ -291,3 +291,21 @@ pub fn run(env: &Env) -> i32 {
 
     rep.finish()
 }
+
+/// reference relative path from file `from` to file `to` (both absolute, normalised)
+pub fn ref_relative(from: &Path, to: &Path) -> String {
+    let f: Vec<String> = from.to_string_lossy().split('/').filter(|c| !c.is_empty()).map(String::from).collect();
+    let t: Vec<String> = to.to_string_lossy().split('/').filter(|c| !c.is_empty()).map(String::from).collect();
+    let fdir = &f[..f.len().saturating_sub(1)];
+    let common = fdir.iter().zip(t.iter()).take_while(|(a, b)| a == b).count();
+    let ups = fdir.len() - common;
+    let mut s = String::new();
+    if ups == 0 {
+        s.push_str("./");
+    }
+    for _ in 0..ups {
+        s.push_str("../");
+    }
+    s.push_str(&t[common..].join("/"));
+    s
+}
